@@ -36,7 +36,7 @@ func runC11(res *Result, d *Driver, tier string, seed uint64) {
 		"the run must return within the bound with the genuine final verdict (program already ended) or Time Limit Exceeded — never Runner Error or a policy violation, never a lost cancellation (program runs to completion long after cancel) — and the program's pid must be dead; Destroy during an in-flight Execve/Open/Ping must make the call return with an error and kill the container init. " +
 		"non-trivial = every case; distinct = (runner, program, instant)."
 	rng := NewRng(seed, "C11", 1)
-	const bound = 3 * time.Second
+	const bound = 10 * time.Second // programs marked long run for 30 s: a lost cancellation is far beyond this, a loaded machine is not
 	type prog struct {
 		name, script string
 		long         bool // runs far longer than any cancellation instant
